@@ -11,13 +11,15 @@ mod c06_vals;
 pub mod c11;
 mod c11_data;
 pub mod c12;
+pub mod c13;
 pub mod c14;
 mod c14_gen;
 mod c14_model;
 pub mod c16;
-mod c16_db;
+pub mod c16_db;
 mod c16_ins;
 mod c16_q;
+pub mod c17;
 pub mod c18;
 pub mod c19;
 mod c19_model;
@@ -26,5 +28,5 @@ pub mod selftest;
 pub mod sqlcase;
 
 pub fn all() -> Vec<PropDef> {
-    vec![selftest::def(), c01::def(), c02::def(), c05::def(), c06::def(), c11::def(), c12::def(), c14::def(), c16::def(), c18::def(), c19::def(), c20::def()]
+    vec![selftest::def(), c01::def(), c02::def(), c05::def(), c06::def(), c11::def(), c12::def(), c13::def(), c14::def(), c16::def(), c17::def(), c18::def(), c19::def(), c20::def()]
 }
